@@ -38,7 +38,7 @@ PROPS = {
         "assumptions": COMMON_ASSUME,
     },
     "C04": {
-        "rules": ["R-NOTFOUND", "R-WINDOW", "R-ALPHAGUARD", "R-BUCKET", "R-FMMAP", "R-SCANEXIT", "R-PURE-PREFIX", "R-CMPSIGN", "R-BSEARCH", "R-SCANSIGN", "R-BISECT", "R-IDRANGE", "R-EXTENT-FM", "R-CMPEND"],
+        "rules": ["R-NOTFOUND", "R-WINDOW", "R-ALPHAGUARD", "R-BUCKET", "R-FMMAP", "R-SCANEXIT", "R-PURE-PREFIX", "R-CMPSIGN", "R-BSEARCH", "R-SCANSIGN", "R-BISECT", "R-IDRANGE", "R-EXTENT-FM", "R-CMPEND", "R-BYTEORDER"],
         "explanation": "The structural half of prefix search: the not-found protocol of the in-bucket search helpers (all five front-coding kinds), "
                        "agreement between the located ID range and the window handed to the string iterator under that iterator class's own "
                        "first/end protocol (symbolic count = right-left+1, incl. the empty range), alphabet guard for absent bytes. "
@@ -52,7 +52,8 @@ PROPS = {
                     "the left/right boundary bisections of prefix search cover the whole interval the main binary search left open, with the step forms of a closed resp. half-open interval (R-BISECT)",
                     "the contiguous ID iterator yields exactly [left,right] and nothing for the (NORESULT,NORESULT) pair (R-IDRANGE)",
                     "the FM-index tables (occ, alphabet, samples) are saved with the extent they are allocated with, so a loaded index is indexed within bounds like a built one (R-EXTENT-FM)",
-                    "comparators that take the pattern length report a match only where the end of the pattern has been observed (R-CMPEND)"],
+                    "comparators that take the pattern length report a match only where the end of the pattern has been observed (R-CMPEND)",
+                    "the prefix comparators order bytes as unsigned (R-BYTEORDER)"],
         "not_decided": ["correctness of the boundary binary searches and in-bucket scans on actual data (value-level)"],
         "assumptions": COMMON_ASSUME,
     },
@@ -72,7 +73,7 @@ PROPS = {
         "assumptions": COMMON_ASSUME,
     },
     "C01": {
-        "rules": ["R-STATE", "R-INITCOVER", "R-MIRROR", "R-IDGUARD", "R-SELECTRANGE", "R-PROBE", "R-BUCKET", "R-FMMAP", "R-BYTEORDER", "R-PURE-BASIC", "R-SLOT", "R-CLAMP", "R-CMPSIGN", "R-BSEARCH", "R-SCANSIGN", "R-CHUNKINIT", "R-SCANLEN", "R-RESAVE-SCALAR"],
+        "rules": ["R-STATE", "R-INITCOVER", "R-MIRROR", "R-IDGUARD", "R-SELECTRANGE", "R-PROBE", "R-BUCKET", "R-FMMAP", "R-BYTEORDER", "R-PURE-BASIC", "R-SLOT", "R-CLAMP", "R-CMPSIGN", "R-BSEARCH", "R-SCANSIGN", "R-CHUNKINIT", "R-SCANLEN", "R-RESAVE-SCALAR", "R-VBYTE"],
         "explanation": "The clause `for the freshly built object and the reloaded one alike` is decided structurally: for every kind and both "
                        "creation paths, every field read by a query on an object of a class that path instantiates (rapid type analysis, virtual "
                        "calls resolved to final overriders of instantiated classes) is assigned by code reachable from that creation path, pointer "
@@ -90,13 +91,14 @@ PROPS = {
                     "binary searches move the bound the comparator's orientation dictates, and in-bucket scans give up only once the stored string is larger (R-BSEARCH, R-SCANSIGN)",
                     "every chunk scan handed to the Huffman/Hu-Tucker chunk decoder starts from the same state as its siblings (R-CHUNKINIT)",
                     "the scans that derive the FM-index / XBW alphabet and maximum symbol cover exactly the sequence handed to the wavelet-tree builder (R-SCANLEN)",
-                    "scalar header values (element / bucket counts, sizes, widths) read from the image are kept unchanged in the field they were saved from (R-RESAVE-SCALAR)"],
+                    "scalar header values (element / bucket counts, sizes, widths) read from the image are kept unchanged in the field they were saved from (R-RESAVE-SCALAR)",
+                    "the variable-byte decoder that front coding uses for shared-prefix lengths agrees with its encoder (R-VBYTE)"],
         "not_decided": ["that decoding inverts encoding for every string (Hu-Tucker, Huffman, Re-Pair, DAC, rank/select values)", "binary-search correctness",
                         "HHTFC / RPHTFC mis-decode small inputs even when reloaded (seen by triage probes replays/t_roundtrip.cpp; value-level, outside every rule)"],
         "assumptions": COMMON_ASSUME,
     },
     "C07": {
-        "rules": ["R-STATE", "R-INITCOVER", "R-EXTENT", "R-KILLUSE", "R-DANGLING", "R-ALPHAGUARD", "R-DEDUP", "R-IDGUARD", "R-SHIFT", "R-CLAMP", "R-ZEROFILL", "R-GROW", "R-SLACK", "R-ALLOCFORM", "R-LOCKSET", "R-BYTEINDEX", "R-REFCOUNT", "R-COUNTERWIDTH"],
+        "rules": ["R-STATE", "R-INITCOVER", "R-EXTENT", "R-KILLUSE", "R-DANGLING", "R-ALPHAGUARD", "R-DEDUP", "R-IDGUARD", "R-SHIFT", "R-CLAMP", "R-ZEROFILL", "R-GROW", "R-SLACK", "R-ALLOCFORM", "R-LOCKSET", "R-BYTEINDEX", "R-REFCOUNT", "R-COUNTERWIDTH", "R-BUCKET"],
         "explanation": "Structural preconditions of memory safety, each a necessary condition with confirmed instances: no operation consults state the "
                        "creation path never set, saved extents equal allocated extents, nothing reachable from a dictionary is freed by an operation or "
                        "left dangling by a loader, pattern bytes are range-checked before indexing, duplicate iterators have their sentinel, ids are "
@@ -108,19 +110,21 @@ PROPS = {
                     "the shared parts vector that the producer grows is indexed by workers only under its mutex: no access to a reallocated buffer (R-LOCKSET)",
                     "tables indexed by an arbitrary byte value have >= 256 entries on every path that creates them, loaders included (R-BYTEINDEX)",
                     "the RRR offset table shared through a static pointer is acquired once by every constructor and released with the pointer reset (R-REFCOUNT)",
-                    "no length / size handed to a container is counted in a local narrower than 32 bits (R-COUNTERWIDTH)"],
+                    "no length / size handed to a container is counted in a local narrower than 32 bits (R-COUNTERWIDTH)",
+                    "the scan bound of the last (partial) bucket is taken for the bucket that is actually scanned (R-BUCKET)"],
         "not_decided": ["all index arithmetic over decoded data (bucket scans, chunk decoding with b_remain, expandRule recursion depth, scratch buffers sized "
                         "from maxlength/maxcomplength), buffer growth estimates, suffix sorting on tiny inputs, termination: a pass means the structural "
                         "preconditions hold, not that the library is memory safe"],
         "assumptions": COMMON_ASSUME,
     },
     "C12": {
-        "rules": ["R-CLAMP", "R-PARAMFLOW", "R-DISPATCH", "R-PROBE", "R-BUCKET", "R-SLOT", "R-JOIN"],
+        "rules": ["R-CLAMP", "R-PARAMFLOW", "R-DISPATCH", "R-PROBE", "R-BUCKET", "R-SLOT", "R-JOIN", "R-BISECT"],
         "explanation": "The last sentence of the property (bucket size below 2 is replaced by 2) is decided by def-use on the five front-coding constructors; "
                        "thread_count and cut_size are shown to flow only into the pool size / the cut decision; every accepted hash load option has a loader.",
         "decided": ["raw bucket size never used after the clamp (R-CLAMP)", "thread_count -> pool only, cut_size -> cut decision and header only (R-PARAMFLOW)",
                     "Hash::load has an arm for each of the three representations the kind loaders accept (R-DISPATCH)",
-                    "thread count: blocks land in submission-order slots and the constructor joins all tasks before returning (R-SLOT, R-JOIN)"],
+                    "thread count: blocks land in submission-order slots and the constructor joins all tasks before returning (R-SLOT, R-JOIN)",
+                    "whatever the bucket size, the boundary searches of prefix search cover the interval left open (R-BISECT)"],
         "not_decided": ["equality of answers across bucket sizes / overheads / samplings (metamorphic, value-level)"],
         "assumptions": COMMON_ASSUME,
     },
@@ -148,7 +152,7 @@ PROPS = {
         "assumptions": COMMON_ASSUME,
     },
     "C03": {
-        "rules": ["R-BUCKET", "R-FMMAP", "R-NOSORT", "R-BYTEORDER", "R-PURE-RANK", "R-CLAMP", "R-CMPSIGN", "R-BSEARCH", "R-SCANSIGN", "R-CMPEND", "R-SCANLEN", "R-RESAVE-SCALAR"],
+        "rules": ["R-BUCKET", "R-FMMAP", "R-NOSORT", "R-BYTEORDER", "R-PURE-RANK", "R-CLAMP", "R-CMPSIGN", "R-BSEARCH", "R-SCANSIGN", "R-CMPEND", "R-SCANLEN", "R-RESAVE-SCALAR", "R-VBYTE"],
         "explanation": "Order preservation decided structurally: rank operations are the identity / delegate to extract in the seven order-preserving "
                        "kinds, ID arithmetic is consistent with consuming the input in order, FM-index row mapping agrees, and no builder of an "
                        "order-preserving kind reorders its input (no sort reachable on their build paths). "
@@ -161,7 +165,8 @@ PROPS = {
                     "binary searches move the bound the comparator's orientation dictates, and in-bucket scans give up only once the stored string is larger (R-BSEARCH, R-SCANSIGN)",
                     "comparators that take the pattern length report a match only where the end of the pattern has been observed (R-CMPEND)",
                     "the scans that derive the FM-index / XBW alphabet and maximum symbol cover exactly the sequence handed to the wavelet-tree builder (R-SCANLEN)",
-                    "scalar header values (element / bucket counts, sizes, widths) read from the image are kept unchanged in the field they were saved from (R-RESAVE-SCALAR)"],
+                    "scalar header values (element / bucket counts, sizes, widths) read from the image are kept unchanged in the field they were saved from (R-RESAVE-SCALAR)",
+                    "the variable-byte decoder that front coding uses for shared-prefix lengths agrees with its encoder (R-VBYTE)"],
         "not_decided": ["the alphabetic property of Hu-Tucker codes (memcmp on encoded headers = string order) and suffix-array order (value-level)"],
         "assumptions": COMMON_ASSUME,
     },
